@@ -19,6 +19,8 @@ def _one(tree):
             accepted = True
         except pyrtl.PyrtlError:
             accepted = False
+        except Exception as e:
+            return dict(tree=tree, status='raised', why='%s: %s' % (type(e).__name__, str(e)[:200]))
         # semantic exclusivity by the reference interpreter (8 predicate valuations)
         if not accepted:
             tags = {}
@@ -122,6 +124,13 @@ def run(ctx):
                                                       kwargs=dict(tree=r['tree'], **r['cex'])),
                                    canonical_input=dict(tree=r['tree']), function=FUNCS,
                                    text='conditionally assigned target does not take its unique active branch value')
+        elif st == 'raised':
+            ctx.confirm_and_report(name + '.raises', 'call',
+                                   dict(module='fam.condtrees', func='replay',
+                                        kwargs=dict(tree=r['tree'], inputs={})),
+                                   canonical_input=dict(tree=r['tree']), function=FUNCS,
+                                   solver_output=r['why'],
+                                   text='elaboration raised a non-PyRTL exception')
         elif st == 'accepted-nonexclusive':
             ctx.confirm_and_report(name + '.exclusion', 'call',
                                    dict(module='fam.condtrees', func='nonexclusive_accepted',
